@@ -45,10 +45,11 @@ const (
 	ACloseBody   // closes in the middle of the body
 	AStall       // never answers
 	ASlow        // answers completely, but only after the caller's request timeout (and before the read timeout)
+	AOkCloseCap  // like AOkClose, spelled "Connection: Close" (connection options are case-insensitive tokens)
 	nAnswers
 )
 
-var answerNames = []string{"ok", "ok+close", "silent-close-idle", "close-before-first-byte", "close-mid-header", "close-mid-body", "stall", "slow"}
+var answerNames = []string{"ok", "ok+close", "silent-close-idle", "close-before-first-byte", "close-mid-header", "close-mid-body", "stall", "slow", "ok+Close"}
 
 type Scenario struct {
 	Name     string `json:"name"`
@@ -60,6 +61,17 @@ type Scenario struct {
 	// GetURL: the calls are client.GetURLTimeout(url, reqTimeout) - the helper that runs the exchange on a goroutine of
 	// its own and hands the result over a channel, abandoning it at the timeout - instead of HostClient.Do
 	GetURL bool `json:"get_url,omitempty"`
+	// ShortReqTO: the request timeout (1 s) is shorter than MaxConnWaitTimeout (3 s)
+	ShortReqTO bool `json:"short_req_timeout,omitempty"`
+	// ReuseHead: every caller reuses one Request and one Response object for all its calls, and its first call is a HEAD
+	ReuseHead bool `json:"reuse_head,omitempty"`
+}
+
+func (sc Scenario) reqTO() time.Duration {
+	if sc.ShortReqTO {
+		return time.Second
+	}
+	return reqTimeout
 }
 
 // Plan: answer of the peer to the k-th request it receives (arrival order), dial errors, cancelled calls.
@@ -185,11 +197,15 @@ func (c *sconn) Read(p []byte) (int, error) {
 	}
 }
 
-func respBytes(id string, closeHdr bool) []byte {
+func respBytes(id string, closeHdr bool, capital ...bool) []byte {
 	body := "id=" + id
 	h := "HTTP/1.1 200 OK\r\nContent-Type: text/plain\r\n"
 	if closeHdr {
-		h += "Connection: close\r\n"
+		if len(capital) > 0 && capital[0] {
+			h += "Connection: Close\r\n"
+		} else {
+			h += "Connection: close\r\n"
+		}
 	}
 	return []byte(fmt.Sprintf("%sContent-Length: %d\r\n\r\n%s", h, len(body), body))
 }
@@ -261,8 +277,17 @@ func (c *sconn) request(head, from string) {
 	c.writer = from
 	c.pending = true
 	verifrt.Logf("peer: conn%d got %s %s from %s -> %s", c.id, method, id, from, answerNames[ans])
-	full := respBytes(id, ans == AOkClose)
+	full := respBytes(id, ans == AOkClose || ans == AOkCloseCap, ans == AOkCloseCap)
+	if method == "HEAD" {
+		full = full[:bytes.Index(full, []byte("\r\n\r\n"))+4]
+	}
 	switch ans {
+	case AOkCloseCap:
+		ans = AOkClose
+		c.lastAns = AOkClose
+		c.out = append(c.out, full...)
+		c.respLeft = len(full)
+		c.eof = true
 	case AOk:
 		c.out = append(c.out, full...)
 		c.respLeft = len(full)
@@ -355,6 +380,7 @@ func (w *World) Body() func() {
 		hc.Addr = "h:80"
 		w.hc = hc
 		w.calls = make([]callRec, job.Sc.N*job.Sc.M)
+		reuseReq, reuseResp := make([]*protocol.Request, job.Sc.N), make([]*protocol.Response, job.Sc.N)
 		var wg verifrt.WaitGroup
 		wg.Add(job.Sc.N)
 		for t := 0; t < job.Sc.N; t++ {
@@ -378,6 +404,16 @@ func (w *World) Body() func() {
 						continue
 					}
 					req, resp := &protocol.Request{}, &protocol.Response{}
+					if job.Sc.ReuseHead {
+						if m == 0 {
+							reuseReq[t], reuseResp[t] = req, resp
+							rec.method = "HEAD"
+						} else {
+							req, resp = reuseReq[t], reuseResp[t]
+							req.Reset()
+							rec.method = "GET"
+						}
+					}
 					req.SetMethod(rec.method)
 					req.SetRequestURI("http://h/" + rec.id)
 					req.Header.Set("X-Id", rec.id)
@@ -385,7 +421,7 @@ func (w *World) Body() func() {
 						req.SetBodyString("pb")
 					}
 					if job.Sc.ReqTO {
-						req.SetOptions(config.WithRequestTimeout(reqTimeout))
+						req.SetOptions(config.WithRequestTimeout(job.Sc.reqTO()))
 					}
 					var ctx context.Context = context.Background()
 					for _, c := range job.Plan.Cancel {
@@ -472,7 +508,11 @@ func (w *World) quiescence() {
 	}
 	for _, c := range w.calls {
 		if c.err == nil {
-			if c.status != 200 || c.body != "id="+c.id {
+			wantBody := "id=" + c.id
+			if c.method == "HEAD" {
+				wantBody = ""
+			}
+			if c.status != 200 || c.body != wantBody {
 				w.violate("call %s returned status %d body %q: not the response to its own request", c.id, c.status, c.body)
 			}
 			if c.cancelled {
@@ -481,7 +521,7 @@ func (w *World) quiescence() {
 		}
 		limit := time.Duration(0)
 		if w.job.Sc.ReqTO || w.job.Sc.GetURL {
-			limit = reqTimeout
+			limit = w.job.Sc.reqTO()
 		}
 		if limit > 0 && c.end-c.start > limit && verifrt.NoSlack() {
 			w.violate("call %s took %v (virtual), request timeout is %v", c.id, c.end-c.start, limit)
